@@ -773,17 +773,19 @@ fn version_minor_digit(v: http::Version) -> u32 {
 
 fn serialize_request(request: &RequestHeaders) -> io::Result<(Bytes, BodyLength)> {
     let mut serialized = BytesMut::new();
+    let path = request
+        .uri
+        .path_and_query()
+        .map_or(request.uri.path(), |x| x.as_str());
     serialized.put(
         format!(
             "{} {} HTTP/{}.{}\r\n",
             request.method.as_str(),
-            if request.method != http::Method::OPTIONS {
-                request
-                    .uri
-                    .path_and_query()
-                    .map_or(request.uri.path(), |x| x.as_str())
-            } else {
+            // the asterisk form stands for an OPTIONS request without a path only
+            if request.method == http::Method::OPTIONS && (path.is_empty() || path == "/") {
                 "*"
+            } else {
+                path
             },
             version_major_digit(request.version),
             version_minor_digit(request.version),
